@@ -41,3 +41,14 @@ Theorem C13_system_emitted_stream_wellformed : forall (A : Type) cmax W ls (s : 
   fst (rrun RIdle (p_sent s)) <> RFailed /\ existsb (@is_bad A) (snd (rrun RIdle (p_sent s))) = false.
 Proof. exact system_emitted_stream_wellformed. Qed.
 Print Assumptions C13_system_emitted_stream_wellformed.
+
+(* nested tunnels: what the inner receive loop reads from the outer stream is always one of the
+   inner sender's frames, whole and in order: the read step is defined whenever the outer stream
+   has something queued *)
+From GT Require Import Frames Pipe Nested NestedProofs.
+Theorem C13_nested_carrier_hands_over_frames : forall (A B : Type) (enc : dframe A -> list B) (dec : list B -> option (dframe A)),
+  (forall f, dec (enc f) = Some f) ->
+  forall cmaxI WI cmaxO WO ls (n : nst A B), nrun enc dec cmaxI cmaxO (n_init A B WI WO) ls = Some n ->
+  p_rq (n_out n) <> [] -> exists n', nstep enc dec cmaxI cmaxO n NCarrierRecv = Some n'.
+Proof. exact nested_carrier_recv_enabled. Qed.
+Print Assumptions C13_nested_carrier_hands_over_frames.
